@@ -341,8 +341,13 @@ impl<'tcx> Dumper<'tcx> {
         let tcx = self.tcx;
         match val {
             ConstValue::Scalar(Scalar::Int(si)) => self.scalar_bits(si, t),
-            ConstValue::Scalar(Scalar::Ptr(..)) => {
-                J::Obj(vec![("ty", num(self.ty(t))), ("ptr", s(format!("{:?}", val)))])
+            ConstValue::Scalar(Scalar::Ptr(ptr, _)) => {
+                let mut o = vec![("ty", num(self.ty(t))), ("ptr", s(format!("{:?}", val)))];
+                let (prov, _off) = ptr.into_raw_parts();
+                if let rustc_middle::mir::interpret::GlobalAlloc::Static(d) = tcx.global_alloc(prov.alloc_id()) {
+                    o.push(("static", s(self.key(d))));
+                }
+                J::Obj(o)
             }
             ConstValue::ZeroSized => J::Obj(vec![("ty", num(self.ty(t))), ("zst", J::Bool(true))]),
             ConstValue::Slice { .. } => match val.try_get_slice_bytes_for_diagnostics(tcx) {
